@@ -79,19 +79,19 @@ theorem truncator_quiet_after_done (st : TState) (fm : List File) (hd : st.done 
 
 /-! ### the aggregate (`collectSender`) -/
 
-/-- **`aggregate_prefix_partial`** (any mode in which cutting twice is cutting once — `Comp`, true of line mode):
-    if all scores are pairwise distinct and all files have the same extension (so that the novel-extension promotion
-    cannot fire), then for every arrival order and batching of the shard results `collectSender` returns exactly the
-    ranked, truncated union. -/
-theorem aggregate_prefix_of_comp (c : Bool) (hc : Comp c) (D M e : Nat) (batches : List (List File))
-    (hne : batches ≠ []) (hnd : (scores batches.flatten).Nodup) (hext : ∀ f ∈ batches.flatten, f.ext = e) :
+/-- **`aggregate_prefix`, general form**: if all scores are pairwise distinct and the novel-extension promotion does
+    not change what a truncation returns (`NoPromo`), then for every arrival order and batching of the shard results
+    `collectSender` returns exactly the ranked, truncated union — in any mode in which cutting twice is cutting once
+    (`Comp`, true of line mode). -/
+theorem aggregate_prefix_of_noPromo (c : Bool) (hc : Comp c) (D M : Nat) (batches : List (List File))
+    (hne : batches ≠ []) (hnd : (scores batches.flatten).Nodup) (hB : NoPromo c D M batches.flatten) :
     collect D M c batches = some (sortAndTruncate D M c batches.flatten) := by
   unfold collect
   cases hlim : hasDisplayLimit D M with
   | true =>
     obtain ⟨b, bs, rfl⟩ := List.exists_cons_of_ne_nil hne
-    have hfold := collect_fold c hc D M hlim e (b :: bs) none [] (by simp [topN_nil, sortDesc])
-      (by simpa using hnd) (by simpa using hext)
+    have hfold := collect_fold c hc D M hlim _ hB (b :: bs) none [] (by simp [topN_nil, sortDesc])
+      (by simpa using hnd) (by simp)
     obtain ⟨y, hy⟩ := collectSend_isSome D M c none b
     obtain ⟨x, hx⟩ := foldl_collectSend_isSome D M c bs y
     have hx' : List.foldl (collectSend D M c) none (b :: bs) = some x := by
@@ -99,9 +99,7 @@ theorem aggregate_prefix_of_comp (c : Bool) (hc : Comp c) (D M e : Nat) (batches
     rw [hx'] at hfold ⊢
     simp only [collectDone, hlim, if_true, Option.getD_some, List.nil_append] at hfold ⊢
     rw [hfold, sortAndTruncate_eq]
-    congr 2
-    unfold sortFiles
-    exact (boost_sameExt e _ (fun f hf => hext f ((sortDesc_perm _).mem_iff.mp hf))).symm
+    exact congrArg some (hB _ (fun f hf => ⟨f, hf, rfl⟩)).symm
   | false =>
     have h0 : D = 0 ∧ M = 0 := by
       simp only [hasDisplayLimit, Bool.or_eq_false_iff, decide_eq_false_iff_not] at hlim
@@ -117,6 +115,37 @@ theorem aggregate_prefix_of_comp (c : Bool) (hc : Comp c) (D M e : Nat) (batches
     simp only [collectDone, hlim, Option.getD_some, Option.getD_none, List.nil_append] at hfold ⊢
     rw [hfold]
     rfl
+
+/-- no promotion is possible when every file has the same extension -/
+theorem noPromo_sameExt (c : Bool) (D M e : Nat) (U0 : List File) (hext : ∀ f ∈ U0, f.ext = e) :
+    NoPromo c D M U0 := by
+  intro l hl
+  have : sortFiles l = sortDesc l := by
+    unfold sortFiles
+    refine boost_sameExt e _ (fun f hf => ?_)
+    obtain ⟨g, hg, eg⟩ := hl f ((sortDesc_perm _).mem_iff.mp hf)
+    rw [eg]; exact hext g hg
+  rw [this]
+
+/-- with a file limit of 1 or 2 the promotion (which never touches the first two places) cannot matter -/
+theorem noPromo_small_D (c : Bool) (D M : Nat) (h1 : 1 ≤ D) (h2 : D ≤ 2) (U0 : List File) : NoPromo c D M U0 := by
+  intro l _
+  have : optL D = some D := by unfold optL; simp; omega
+  rw [this]
+  unfold sortFiles
+  exact topN_boost_small c D h2 _ _
+
+/-- **`aggregate_prefix_partial`** (same extension: the promotion cannot fire) -/
+theorem aggregate_prefix_of_comp (c : Bool) (hc : Comp c) (D M e : Nat) (batches : List (List File))
+    (hne : batches ≠ []) (hnd : (scores batches.flatten).Nodup) (hext : ∀ f ∈ batches.flatten, f.ext = e) :
+    collect D M c batches = some (sortAndTruncate D M c batches.flatten) :=
+  aggregate_prefix_of_noPromo c hc D M batches hne hnd (noPromo_sameExt c D M e _ hext)
+
+/-- **`aggregate_prefix_partial`, file limit 1 or 2** (any extensions, any match limit), line mode -/
+theorem aggregate_prefix_partial_small_D (D M : Nat) (h1 : 1 ≤ D) (h2 : D ≤ 2) (batches : List (List File))
+    (hne : batches ≠ []) (hnd : (scores batches.flatten).Nodup) :
+    collect D M false batches = some (sortAndTruncate D M false batches.flatten) :=
+  aggregate_prefix_of_noPromo false comp_line D M batches hne hnd (noPromo_small_D false D M h1 h2 _)
 
 /-- line mode -/
 theorem aggregate_prefix_partial (D M e : Nat) (batches : List (List File))
@@ -187,5 +216,14 @@ example : (truncRun (newTruncator 0 4 false) [[exF1], [exF2, exF3], [exF3]]).map
 -- same extension, distinct scores, arriving in two batches in the "wrong" order, file limit 2
 example : collect 2 0 false [[exF3, exF2], [exF1]] = some [exF1, exF2] := by decide
 example : (scores [exF3, exF2, exF1]).Nodup := by decide
+
+/-- the promotion breaks `aggregate_prefix` for every file limit ≥ 3, e.g. 4: the first batch
+    `[a.go 100, b.go 80, d.py 75, e.py 74, x.rb 73]` keeps `[a b d e]`; after `[p.py 110]` the aggregate is `[p a b d]`
+    while the unlimited ranking is `[p a x.rb b d e]` -/
+theorem aggregate_prefix_full_false_limit4 :
+    collect 4 0 false [[exA, exB, exD, ⟨6, 74, 2, lm1 6⟩, exX], [exP]] ≠
+      some (sortAndTruncate 4 0 false [exA, exB, exD, ⟨6, 74, 2, lm1 6⟩, exX, exP]) := by decide
+-- file limit 2, three extensions, same batches as the counter-example: the theorem applies
+example : collect 2 0 false [[exA, exB, exD, exX], [exP]] = some [exP, exA] := by decide
 
 end ZoektModel.C22
